@@ -599,6 +599,14 @@ func TestVerif_C28(t *testing.T) {
 	vh.Check(t, "schedule", 250, 400, func(rt *rapid.T) {
 		c28Run(rt, srv, admin, rec)
 	})
+	// DDL on the sequence's table (drop / create / alter … auto_increment on branches lacking it)
+	recDDL := vh.NewRecorder("C28", "ddl", "exploration", c28DDLRule,
+		"autocommit sessions only in this part (DDL commits implicitly)",
+		"DROP TABLE on one branch re-establishes the sequence from the tables left on the other branches (documented in SequenceTracker.DropRelation), so ids that lived only in the dropped table may be handed out again; the oracle's lower bound follows that rule. ALTER TABLE … AUTO_INCREMENT=n and TRUNCATE are not generated",
+		"no explicit ids in this part",
+		"not generated: dolt_branch from a head that still has the table while every working set has dropped it (observed on the unmodified tree: the first generated INSERT on that branch fails with 'autoIncrementTracker: unable to find sequence for table a')")
+	defer recDDL.Write(t)
+	vh.Check(t, "ddl", 120, 250, func(rt *rapid.T) { c28DDLRun(rt, srv, admin, recDDL) })
 	// a small dose of the goroutine race variant (generated bulk inserts against explicit ids placed
 	// at the live sequence), so that the quick tier has some chance at intra-statement races too
 	recRace := vh.NewRecorder("C28", "parallel_explicit_vs_generated_dose", "exploration", parRaceRule,
